@@ -90,6 +90,83 @@ def _truncated_before_dot(s, tab):
     return False
 
 
+_LEX = re.compile(r'(\[[^\]]*\])|(Cl|Br|[BCNOSPFI]|[bcnosp])|(%\d\d|\d)|([-=#$:/\\])|([()])|(\.)')
+_CONV = {}
+
+
+def _lex(smi):
+    """independent lexing of a SMILES string: (kind, text) with kind in atom / ring / bond / paren / dot"""
+    out, i = [], 0
+    while i < len(smi):
+        mm = _LEX.match(smi, i)
+        if not mm:
+            return None
+        kind = ('atom', 'atom', 'ring', 'bond', 'paren', 'dot')[mm.lastindex - 1]
+        out.append((kind, mm.group(0)))
+        i = mm.end()
+    return out
+
+
+def _atom_indices(smi):
+    import selfies as sf
+    out, maps = sf.encoder(smi, attribute=True)
+    idx = []
+    for am in maps:
+        for a in (am.attribution or [])[:1]:
+            idx.append((a.index, a.token))
+    return idx
+
+
+def _convention():
+    """The index the encoder reports for a SMILES token is not documented.  It is calibrated here on five tiny
+    molecules of the running library (does a dot / a parenthesis / a ring number / a bond character before an atom /
+    before a ring number take a position of its own?); every other input must then follow the same convention."""
+    if _CONV:
+        return _CONV.get('w')
+    try:
+        def last(smi):
+            return max(i for i, t in _atom_indices(smi))
+        w = {'dot': last('C.C') - 1, 'paren': (last('C(C)C') - 2) / 2, 'ring': (last('C1CC1C') - 3) / 2,
+             'bond_atom': last('C=CC') - 2}
+        w['bond_ring'] = (last('C=1CC=1C') - 3 - 2 * w['ring']) / 2
+        ok = all(v in (0, 1) for v in w.values()) and last('CC') == 1
+    except Exception:
+        ok, w = False, None
+    _CONV['w'] = w if ok else None
+    return _CONV['w']
+
+
+def _index_consistency(smi, maps, m):
+    """reported (index, token) of every SELFIES atom symbol names the SMILES atom token at that position under the
+    library's own (calibrated) lexical convention"""
+    w = _convention()
+    items = _lex(smi)
+    if w is None or items is None:
+        return None
+    pos, p = [], 0
+    for j, (kind, text) in enumerate(items):
+        if kind == 'atom':
+            pos.append((p, text))
+            p += 1
+        elif kind == 'bond':
+            nxt = items[j + 1][0] if j + 1 < len(items) else None
+            p += w['bond_ring'] if nxt == 'ring' else w['bond_atom']
+        else:
+            p += w[kind]
+    want = {int(a): t for a, t in pos}
+    for am in maps:
+        at = am.attribution or []
+        if not at:
+            continue
+        a = at[0]
+        if a.token in [t for _, t in pos] and want.get(a.index) != a.token and not (
+                'Ring' in am.token or 'Branch' in am.token):
+            return ('SELFIES symbol %r is attributed to token %r at position %d, but position %d of %r holds %r '
+                    '(positions as the library itself counts them on calibration inputs: %r)'
+                    % (am.token, a.token, a.index, a.index, smi, want.get(a.index), w))
+    return None
+
+
 def check_encoder(smi):
     import selfies as sf
     from spec import smiles_reader as R
@@ -104,12 +181,15 @@ def check_encoder(smi):
     if out != plain:
         return [('C17:observation-only', 'encoder returns %r with attribute=True and %r without' % (out, plain), {})]
     toks = re.findall(r'\[[^\]]*\]|\.', out)
+    res = []
+    bad_idx = _index_consistency(smi, maps, None)
+    if bad_idx:
+        res.append(('C17:encoder-index-consistent', bad_idx, {}))
     try:
         m = R.read_smiles(smi)
     except R.SmilesSyntaxError:
-        return []
+        return res
     syms = [t for t in toks if t != '.']
-    res = []
     k = 0
     import sys
     from spec import derivation as D
@@ -213,7 +293,9 @@ def floor(ctx):
     jobs = [('dec', 'default', ch) for ch in chunks(dec, 24)]
     cor = enc.corpus()
     from harness import encfloor
-    jobs += [('enc', None, ch) for ch in chunks(encfloor.SPECIAL + cor[:: (6 if ctx.tier == 'quick' else 1)], 8)]
+    lead = ['=CC', '#CC(C)C1CC1', '/C=C/C', '-CC', 'C=1CC=1C', 'C-1CC-1', 'C=%11CC=%11C', '=C1CC1', 'C/1=C/CCCCCC1', '\\C=C/C',
+            'C(=O)(-C)C', 'C.=CC', 'CC(.C)C=O', 'C-C-C', 'C1=CC=1.C=1CC=1']
+    jobs += [('enc', None, ch) for ch in chunks(lead + encfloor.SPECIAL + cor[:: (6 if ctx.tier == 'quick' else 1)], 8)]
     res = pmap(_work, jobs)
     viol = [b for r in res for b in r[2]]
     return {'evaluations': sum(r[0] for r in res), 'distinct_nontrivial': sum(r[1] for r in res),
